@@ -292,6 +292,59 @@ def process_integrals(ck, rng, table):
         ck.fail({"entry": "GlobalHierarchicalModel", "predicate": pred}, case, detail)
 
 
+def process_history(ck, rng):
+    """history clause: marginal_icdf of a conditional variable after the model has been RE-FITTED to other data
+    must describe the re-fitted model (what a fresh model fitted to the same data gives), not an earlier state"""
+    from virocon import (DependenceFunction, GlobalHierarchicalModel, LogNormalDistribution, WeibullDistribution,
+                         WidthOfIntervalSlicer)
+
+    def dep(func, pars):
+        d = DependenceFunction(func)
+        d.parameters = dict(zip(d.parameters.keys(), pars))
+        return d
+
+    gen = GlobalHierarchicalModel([
+        {"distribution": WeibullDistribution(2.0, 1.6)},
+        {"distribution": LogNormalDistribution(), "conditional_on": 0,
+         "parameters": {"mu": dep(models._lnsquare2, [2.0, 4.0]), "sigma": dep(models._asym3, [0.1, 0.3, 0.4])}}])
+    seed = int(rng.integers(0, 2**31))
+    a = gen.draw_sample(1500, random_state=seed)
+    b = a * np.array([float(rng.uniform(1.5, 2.0)), float(rng.uniform(1.8, 2.6))])
+
+    def build():
+        return GlobalHierarchicalModel([
+            {"distribution": WeibullDistribution(), "intervals": WidthOfIntervalSlicer(1.0, min_n_points=30)},
+            {"distribution": LogNormalDistribution(), "conditional_on": 0,
+             "parameters": {"mu": DependenceFunction(models._lnsquare2, bounds=[(0, None), (0, None)]),
+                            "sigma": DependenceFunction(models._asym3, bounds=[(0.01, None), (0, None), (0, None)])}}])
+
+    case = {"part": "H", "seed": seed, "history": "fit(A); marginal_icdf; fit(B); marginal_icdf  vs  fresh model fit(B); marginal_icdf"}
+    ck.case(case, nontrivial=True, sample=False)
+    ck.count("part=H-history")
+    p = [0.1, 0.5, 0.9]
+    with np.errstate(all="ignore"), warnings.catch_warnings():
+        warnings.simplefilter("ignore")
+        try:
+            m = build()
+            m.fit(a)
+            m.marginal_icdf(p, 1)
+            m.marginal_cdf(np.array([float(np.median(a[:, 1]))]), 0)
+            m.fit(b)
+            q_refit = np.asarray(m.marginal_icdf(p, 1), dtype=float)
+            f = build()
+            f.fit(b)
+            q_fresh = np.asarray(f.marginal_icdf(p, 1), dtype=float)
+        except (RuntimeError, ValueError):
+            # the fitted dependence functions are not admissible everywhere (optimiser outcome): no history to judge
+            ck.count("H_fit_failed")
+            return
+    emp = np.quantile(b[:, 1], p)
+    if not np.allclose(q_refit, q_fresh, rtol=0.05):
+        ck.fail({"entry": "GlobalHierarchicalModel.marginal_icdf", "predicate": "marginal_icdf_describes_current_model"}, case,
+                f"after re-fitting to B: marginal_icdf({p}, 1) = {q_refit.tolist()}, a fresh model fitted to B gives "
+                f"{q_fresh.tolist()} (empirical quantiles of B: {emp.tolist()})")
+
+
 def main(ck):
     rng = np.random.default_rng(ck.seed)
     thorough = ck.tier == "thorough"
@@ -313,6 +366,8 @@ def main(ck):
                     process_reorder(ck, rng, n_dim, dim, which)
     for k in range(12 if thorough else 2):
         process_integrals(ck, rng, table=(k % 2 == 0))
+    for _ in range(6 if thorough else 1):
+        process_history(ck, rng)
 
 
 def replay(ck, payload):
